@@ -3,6 +3,7 @@
 #include "ccl/rslang/SyntaxTree.h"
 
 #include <unordered_map>
+#include <unordered_set>
 
 namespace ccl::rslang {
 //! Converter for AST into standard form
@@ -19,6 +20,8 @@ private:
   NodeSubstitutes nodeSubstitutes{};
   NameSubstitutes nameSubstitutes{};
   uint32_t localVarBase{ 0 };
+  std::unordered_set<std::string> userLocals{};
+  bool isInitialized{ false };
 
 public:
   explicit Normalizer(SyntaxTreeContext termFuncs)
@@ -34,11 +37,13 @@ private:
   void Declarative(SyntaxTree::Node& root);
   void Function(SyntaxTree::Node& func);
 
+  void CollectLocalNames(const SyntaxTree::Node& root);
   static void EnumDeclaration(SyntaxTree::Node& quant);
   void TupleDeclaration(SyntaxTree::Node& declaration, SyntaxTree::Node& predicate);
 
   [[nodiscard]] std::string ProcessTupleDeclaration(SyntaxTree::Node& root);
   void SubstituteTupleVariables(SyntaxTree::Node& target, const std::string& newName);
+  void SubstituteTupleVariables(SyntaxTree::Node& target, Index child, const std::string& newName);
   
   [[nodiscard]] static std::vector<std::string> ArgNames(const SyntaxTree::Node& declaration);
   void SubstituteArgs(SyntaxTree::Node& target, StrRange pos);
